@@ -14,6 +14,7 @@ package c18
 import (
 	"fmt"
 	"testing"
+	"time"
 
 	"verif/hs"
 	"verif/opseq"
@@ -79,8 +80,31 @@ func TestCheck(t *testing.T) {
 		return
 	}
 	runCold(res, tierConfs(), "", 0)
-	for _, sp := range spaces(res, false) {
-		opseq.Run(sp, res, vk.Deadline())
+	// Fair shares of the time budget: a space may run until now + remaining x (its number of histories / histories still to do), so that under
+	// time pressure every configuration still gets its shallow depths (opseq is breadth-first by depth) instead of
+	// the last configurations getting nothing; unused time rolls over to the later spaces.
+	sps := spaces(res, false)
+	size := func(sp *opseq.Space) float64 { // number of histories of the space
+		n, p := 0.0, 1.0
+		for d := 0; d <= sp.Depth; d++ {
+			n += p
+			p *= float64(len(sp.Ops))
+		}
+		return n
+	}
+	left := 0.0
+	for _, sp := range sps {
+		left += size(sp)
+	}
+	for _, sp := range sps {
+		dl := vk.Deadline()
+		if rem := time.Until(dl); rem > 0 {
+			if share := time.Now().Add(time.Duration(float64(rem) * size(sp) / left)); share.Before(dl) {
+				dl = share
+			}
+		}
+		left -= size(sp)
+		opseq.Run(sp, res, dl)
 	}
 	res.Write()
 }
